@@ -97,6 +97,11 @@ def run_shard(desc):
                         res["evals"] += 1
                         bump(res["hits"], "zero_nominal_voltage_source")
                         judge_circuit(d0, cm_, tier, res)
+                if orient == orients[-1] and ii == 0:
+                    # nanovolt / nanoampere waveforms: every judgement is relative to the amplitudes, nothing is "practically zero"
+                    res["evals"] += 1
+                    bump(res["hits"], "small_signal")
+                    judge_circuit(small_signal(d), cm_, tier, res)
     return res
 
 
@@ -131,6 +136,18 @@ def zero_nominal(d):
             done = True
         out.append([c[0], c[1], list(c[2]), v])
     return {"components": out} if done else None
+
+
+def small_signal(d):
+    """the same description with every source's nominal value (= the amplitude of its waveforms here) scaled by 1e-9"""
+    from fractions import Fraction as F_
+    out = []
+    for c in d["components"]:
+        v = dict(c[3])
+        for key in (("V",) if c[0] == "dc_voltage_source" else ("I",) if c[0] == "dc_current_source" else ()):
+            v[key] = str(F_(v[key]) / 10 ** 9)
+        out.append([c[0], c[1], list(c[2]), v])
+    return {"components": out}
 
 
 def time_scaled(d, k):
